@@ -411,6 +411,20 @@ class Inliner(object):
     expr = getattr(holder, field)
     if expr is None: return [s]
     out_pre = []
+    # a helper call inside an assignment target: helper(x).attr = v   (v simple, so hoisting the call keeps the order)
+    if isinstance(s, (ast.Assign, ast.AugAssign)) and _simple(s.value) and self._first_call(s.value, cls, closures) is None:
+      tgs = s.targets if isinstance(s, ast.Assign) else [s.target]
+      for tg in tgs:
+        if isinstance(tg, (ast.Attribute, ast.Subscript)) and isinstance(tg.value, ast.Call) and self.resolve(tg.value, cls, closures) is not None:
+          call = tg.value
+          h, recv, kind = self.resolve(call, cls, closures)
+          try:
+            pre, retname = self.expand(call, h, recv, kind, cls, qual, depth, closures, tail=False, want_value=True)
+          except NotInlinable:
+            self.skip.add(id(call)); continue
+          self.inlined.append((qual, h.name))
+          out_pre += pre
+          tg.value = ast.copy_location(ast.Name(id=retname, ctx=ast.Load()), call)
     for _ in range(6):
       call = self._first_call(expr, cls, closures)
       if call is None: break
